@@ -713,6 +713,15 @@ def structural_checks(unit):
     import glob as _glob
     res = []
     for sc in unit.get("structural", []):
+        if sc.get("count_in_file"):
+            # exactly `expect` occurrences of the token sequence anywhere in one file (declarations: struct fields, consts)
+            try:
+                src = Source.get(sc["file"])
+            except Exception as e:
+                res.append({"id": sc["id"], "ok": False, "detail": str(e), "why": sc.get("why", ""), "lost": True}); continue
+            n = len(find_all_seq(src.toks, pat(sc["pattern"])))
+            res.append({"id": sc["id"], "ok": n == sc["expect"], "detail": "%d occurrence(s) of `%s` in %s (expected %d)" % (n, sc["pattern"], sc["file"], sc["expect"]), "why": sc.get("why", ""), "lost": False})
+            continue
         if "count_in_fn" in sc:
             # exactly `expect` occurrences of the token sequence inside the body of fn `count_in_fn` of one file
             src = Source.get(sc["file"])
